@@ -44,6 +44,7 @@ fn checks() -> Vec<Check> {
         sim::c11::check(),
         sim::c12::check(),
         sim::c14::check(),
+        sim::c16::check(),
         sim::c20::check(),
         web::c15::check(),
         web::c17::check(),
